@@ -994,7 +994,7 @@ PROPS["C15"]["trusted_base"] = PROPS["C15"]["trusted_base"] + COMMON_TRUSTED
 
 
 FIRST_CONTRACTS = "{repo}/internal/parser/first/zz_contracts_verif.go"
-_first_govc = {"dir": "{repo}", "pkgs": ["./internal/parser/first"], "contracts": [FIRST_CONTRACTS]}
+_first_govc = {"dir": "{repo}", "pkgs": ["./internal/parser/first", "./internal/ast"], "contracts": [FIRST_CONTRACTS, "{repo}/internal/ast/zz_contracts_verif.go"]}
 _first_bounded = {
     "name": "FIRSTS", "stands_in_for": ["first.FirstS", "first.First", "first.(SymbolSet).AddSet", "first.(*FirstSets).GetSet"],
     "overlay": {"{repo}/internal/parser/first/verif_first_test.go": "harness/first/verif_first_test.go"},
@@ -1003,7 +1003,7 @@ _first_bounded = {
 for _p in ("C02", "C04", "C06"):
     PROPS[_p]["govc"] = PROPS[_p]["govc"] + [dict(_first_govc, prop=_p)]
     PROPS[_p]["bounded"] = PROPS[_p].get("bounded", []) + [dict(_first_bounded)]
-    PROPS[_p]["explanation"] += " Generator side, proved for all FIRST tables and symbol strings: FirstS is the union of FIRST of the symbols up to and including the first non-nullable one and contains the marker 'empty' exactly when every symbol is nullable (First, SymbolSet.AddSet, FirstSets.GetSet under contract); the fixed point GetFirstSets and the LR(1) closure/goto are decided by the bounded SYN sweep only."
+    PROPS[_p]["explanation"] += " Generator side, proved for all FIRST tables and symbol strings: FirstS is the union of FIRST of the symbols up to and including the first non-nullable one and contains the marker 'empty' exactly when every symbol is nullable (First, SymbolSet.AddSet, FirstSets.GetSet under contract); GetFirstSets returns sets that are closed under the three rules of its iteration (the loop stops only when no production can add anything: invariant 'a change was recorded or every production seen so far is closed', AddToken/AddSet report exactly whether they changed anything); that nothing unjustified is ever added (least fixed point) and the LR(1) closure/goto are decided by the bounded SYN sweep only."
 
 
 def c10_numbering(run):
@@ -1085,3 +1085,67 @@ def c17_race(run):
 
 
 PROPS["C17"]["extra"].append(c17_race)
+
+
+def lrref_corpus(run):
+    """hand-written grammars (corpus/syn_*.bnf: shapes outside the generated SYN scope, each found by reading the code
+    against the property) through the same reference: canonical LR(1) tables, conflict report, exit status, language"""
+    import common as C, json, os, glob, expand
+    exe = C.ensure_tool("lrref", "tools/lrref")
+    gocc = expand.build_gocc(run)
+    viol, cases, samples = [], 0, []
+    for g in sorted(glob.glob(os.path.join(C.VERIF, "corpus", "syn_*.bnf"))):
+        for flags in ([], ["-a"]):
+            rc, o = C.sh([exe, "check", "-gocc", gocc] + flags + ["-lang", g], cwd=run.work, timeout=600)
+            try:
+                r = json.loads(o[o.index("{"):])
+            except Exception:
+                raise C.EngineError("lrref check failed on %s (rc=%d):\n%s" % (g, rc, o[-1500:]))
+            cases += 1
+            samples.append({"grammar": os.path.basename(g), "flags": " ".join(flags), "ref_states": r.get("ref_states"), "conflict_states": r.get("conflict_states"), "language_checked": r.get("language_checked")})
+            for x in (r.get("fails") or [])[:3]:
+                viol.append({"id": "lrref check %s %s%s: %s" % (os.path.basename(g), x["kind"], " -a" if flags else "", x["id"]), "what": x.get("msg"), "kind": x["kind"],
+                             "input": {"grammar_file": g, "grammar": open(g).read(), "flags": " ".join(flags), "tool": "lrref check"}})
+    return {"name": "SYN corpus: hand-written grammars against the canonical LR(1) reference (bounded)", "cases": cases, "evaluations": cases, "violations": viol[:8], "samples": samples[:6], "label": "bounded - never counted as proved"}
+
+
+for _p in ("C02", "C04"):
+    PROPS[_p]["extra"].append(lrref_corpus)
+
+
+def replay_tool_case(run, rp, path):
+    """replays a violation found by one of the reference tools (lrref / lexref) on the grammar stored in the replay file"""
+    import common as C, expand, json, os
+    inp = rp.get("input")
+    if not isinstance(inp, dict):
+        return None
+    text = inp.get("grammar")
+    if text is None and inp.get("grammar_file") and os.path.exists(inp["grammar_file"]):
+        text = open(inp["grammar_file"]).read()
+    tool = inp.get("tool") or ("lexref" if "lexref" in str(rp.get("id", "")) else ("lrref" if "lrref" in str(rp.get("id", "")) else None))
+    if text is None or tool is None:
+        return None
+    tool = "lexref" if tool.startswith("lexref") else "lrref"
+    gocc = expand.build_gocc(run)
+    exe = C.ensure_tool(tool, "tools/" + tool)
+    g = os.path.join(run.work, "replay.bnf")
+    open(g, "w").write(text)
+    cmd = [exe, "check", "-gocc", gocc]
+    if tool == "lrref":
+        cmd += [f for f in (inp.get("flags") or "").split() if f == "-a"] + ["-lang"]
+    rc, o = C.sh(cmd + [g], cwd=run.work, env=dict(C.GOENV, TMPDIR=run.work), timeout=600)
+    try:
+        r = json.loads(o[o.index("{"):])
+    except Exception:
+        raise C.EngineError("%s check failed (rc=%d):\n%s" % (tool, rc, o[-1500:]))
+    fails = r.get("fails") or []
+    if fails:
+        run.say("replay reproduces on the real gocc: %s: %s" % (fails[0].get("kind"), str(fails[0].get("msg"))[:400]))
+        run.say("VIOLATION property=%s replay=%s" % (run.prop, path))
+        return 1
+    run.say("replay does not reproduce on this tree (%s check reports no failure)" % tool)
+    return 0
+
+
+for _p in PROPS:
+    PROPS[_p].setdefault("replayers", []).append(replay_tool_case)
